@@ -67,8 +67,8 @@ def gen_config(cfg, outdir):
 def clang_flags(cfg, cfgdir, extra=()):
     std = CFGS[cfg][0]
     return ['-std=' + std, '-O1', '-fno-vectorize', '-fno-slp-vectorize', '-fno-unroll-loops', '-DNDEBUG',
-            '-fno-rtti', '-Wno-everything', '-mllvm', '-simplifycfg-sink-common=false', '-I' + os.path.join(REPO, 'include'), '-I' + os.path.join(REPO, 'src'),
-            '-I' + cfgdir, '-I' + os.path.join(ROOT, 'harness')] + list(extra)
+            '-fno-rtti', '-Wno-everything', '-mllvm', '-simplifycfg-sink-common=false'] + list(extra) + ['-I' + os.path.join(REPO, 'include'), '-I' + os.path.join(REPO, 'src'),
+            '-I' + cfgdir, '-I' + os.path.join(ROOT, 'harness')]   # extra first: a model_include directory must shadow the repo's header
 
 
 def compile_ll(src, cfg, outdir, extra=(), tag=''):
